@@ -658,7 +658,7 @@ func c06CLIUnit(t *testing.T, r *runner) {
 	if cliPath() == "" {
 		t.Fatalf("HARNESS-ERROR: VERIF_CLI not set")
 	}
-	names := append(append([]string{}, eco.Names...), "vers", "nope", "", "NPM", "--help", "-h")
+	names := append(append([]string{}, eco.Names...), "vers", "nope", "", "NPM", "xyzzy", "-x")
 	cmds := []string{"compare", "sort", "contains", "nope", "", "Compare", "--", "-v"}
 	rapid.Check(t, func(rt *rapid.T) {
 		n := rapid.IntRange(0, 5).Draw(rt, "argc")
